@@ -23,7 +23,13 @@ def commonprefix(paths):
 
     for i, bit in enumerate(lo):
         if bit != hi[i]:
-            return cls(cls.sep.join(lo[:i]), paths[0].root, directory=True)
+            if i == 0 and paths[0].root == Root.absolute:
+                # Absolute paths on different drives have nothing in common.
+                return None
+            # The trailing separator keeps the root of an absolute path (`/`,
+            # `C:/`) intact when that's all the paths share.
+            prefix = cls.sep.join(lo[:i]) + (cls.sep if i else '')
+            return cls(prefix, paths[0].root, directory=True)
     return cls(cls.sep.join(lo), paths[0].root, directory=(lo != hi) or None)
 
 
